@@ -410,6 +410,8 @@ def run(prog, chk):
     from . import c13
     c13.run(prog, Only(chk, "C13.d", "C14.T9"))
     backlinks_cleared_before_removal(prog, chk, "C14.T10")
+    event_translation_tables(prog, chk, "C14.T11")
+    poll_failure_not_on_eintr(prog, chk, "C14.T12")
 
 
 def backlinks_cleared_before_removal(prog, chk, rid):
@@ -466,3 +468,103 @@ def backlinks_cleared_before_removal(prog, chk, rid):
                             obj, f.path_lines(path)[-8:], back, link), f.path_lines(path), evals=2)
     if n < 2:
         raise AnalysisBroken("removals from _resolvers / _establishers: %d found, 2 expected" % n)
+
+
+def event_translation_tables(prog, chk, rid):
+    """Between the registered interest set (read/write/accept/connect flags) and epoll's event bits stand two small functions.
+    Evaluated over every interest set and every combination of native bits: what is reported lies inside what was registered, a
+    readable socket registered for reading is reported readable (likewise writable), and registration asks epoll for the matching bit."""
+    from .c13 import flag
+    chk.rule(rid, "FIN: Poll::Private::mapEvents / unmapEvents (epoll) evaluated over all 16 interest sets x 32 native bit sets: "
+                  "unmap(native, set) is a subset of set; EPOLLIN (EPOLLOUT) with a read/accept (write/connect) interest is reported; "
+                  "map(set) contains EPOLLIN (EPOLLOUT) exactly when set has a read/accept (write/connect) flag", floor=2)
+    RF, WF, AF, CF = (flag(None, prog, n_) for n_ in ("readFlag", "writeFlag", "acceptFlag", "connectFlag"))
+    IN, OUT, ERR, HUP, RDHUP = 0x001, 0x004, 0x008, 0x010, 0x2000
+    ms = [f for f in prog.functions.values() if f.gname == "Socket::Poll::Private::mapEvents" and f.blocks and "unsigned int" in (f.d.get("ret") or "")]
+    us = [f for f in prog.functions.values() if f.gname == "Socket::Poll::Private::unmapEvents" and f.blocks and f.params and "unsigned int" in f.params[0]["t"]]
+    if not ms or not us:
+        raise AnalysisBroken("epoll variants of Poll::Private::mapEvents / unmapEvents not found")
+    sets = [a | b | c | d for a in (0, RF) for b in (0, WF) for c in (0, AF) for d in (0, CF)]
+    m = ms[0]
+    bad = None
+    for ev in sets:
+        seen, end, fv = fin.walk_vals(m, m.entry, {m.params[0]["n"]: ev}, limit=100)
+        got = fin.eval_expr(m, m.nodes[end]["c"][0], fv) if isinstance(end, int) and m.nodes[end]["c"] else None
+        if got is None:
+            bad = "map(%#x) could not be evaluated" % ev
+            break
+        if got & (0x80000000 | 0x40000000):
+            bad = "an interest set %#x is registered %s: the loop serves one kind of readiness per event and relies on the other being " \
+                  "reported again (level-triggered) - a backlog whose write event coincided with a read is never drained" % (
+                      ev, "edge-triggered (EPOLLET)" if got & 0x80000000 else "one-shot (EPOLLONESHOT)")
+            break
+        if bool(got & IN) != bool(ev & (RF | AF)) or bool(got & OUT) != bool(ev & (WF | CF)):
+            bad = "an interest set %#x is registered with the native bits %#x: %s" % (
+                ev, got, "EPOLLIN missing/extra" if bool(got & IN) != bool(ev & (RF | AF)) else "EPOLLOUT missing/extra")
+            break
+    where = "%s:%s" % (m.file, m.line)
+    if bad:
+        chk.bad(rid, m, "event-map-table", where, "Poll::mapEvents: %s - a socket is never (or always) reported for a kind of readiness it is (not) registered for" % bad, evals=16)
+    else:
+        chk.ok(rid, m, "mapEvents: EPOLLIN iff read/accept, EPOLLOUT iff write/connect for 16 interest sets", where, "evaluation", evals=16)
+    u = us[0]
+    bad = None
+    n_ev = 0
+    for ev in sets:
+        for nat in [a | b | c | d | e for a in (0, IN) for b in (0, OUT) for c in (0, ERR) for d in (0, HUP) for e in (0, RDHUP)]:
+            seen, end, fv = fin.walk_vals(u, u.entry, {u.params[0]["n"]: nat, u.params[1]["n"]: ev}, limit=100)
+            n_ev += 1
+            got = fin.eval_expr(u, u.nodes[end]["c"][0], fv) if isinstance(end, int) and u.nodes[end]["c"] else None
+            if got is None:
+                bad = "unmap(%#x, %#x) could not be evaluated (%s)" % (nat, ev, end)
+            elif got & ~ev:
+                bad = "native bits %#x on a socket registered for %#x are reported as %#x: an event kind it is not registered for" % (nat, ev, got)
+            elif (nat & IN) and (ev & (RF | AF)) and (got & (RF | AF)) != (ev & (RF | AF)):
+                bad = "EPOLLIN on a socket registered for %#x is reported as %#x: the readable socket is not dispatched" % (ev, got)
+            elif (nat & OUT) and (ev & (WF | CF)) and (got & (WF | CF)) != (ev & (WF | CF)):
+                bad = "EPOLLOUT on a socket registered for %#x is reported as %#x: the writable socket is not dispatched" % (ev, got)
+            if bad:
+                break
+        if bad:
+            break
+    where = "%s:%s" % (u.file, u.line)
+    if bad:
+        chk.bad(rid, u, "event-unmap-table", where, "Poll::unmapEvents: %s" % bad, evals=n_ev)
+    else:
+        chk.ok(rid, u, "unmapEvents: result inside the registered set, EPOLLIN/EPOLLOUT reported, for %d combinations" % n_ev, where, "evaluation", evals=n_ev)
+
+
+def poll_failure_not_on_eintr(prog, chk, rid):
+    """Server::run leaves its loop when Poll::poll reports failure - "run() never returns otherwise" than by interrupt().  A wait that
+    was merely interrupted by a signal (EINTR, never restarted for epoll_wait / poll) is not a failure: every `return false` of poll()
+    has to lie behind a test that tells EINTR from a real error."""
+    chk.rule(rid, "DOM: in Socket::Poll::Private::poll a `return false` is reached only where a dominating test has excluded errno == EINTR "
+                  "(an interrupted wait is an empty round, not the end of the event loop)", floor=1)
+    fs = [f for f in prog.functions.values() if f.gname == "Socket::Poll::Private::poll" and f.blocks]
+    if not fs:
+        raise AnalysisBroken("Socket::Poll::Private::poll not found")
+    for f in fs:
+        where = "%s:%s" % (f.file, f.line)
+        waits = [c for c in q.calls(f) if (f.nodes[c].get("callee") or "") in ("epoll_wait", "poll", "ppoll", "epoll_pwait", "select")]
+        if not waits:
+            continue
+        rets = [i for i, n in enumerate(f.nodes) if n["k"] == "ReturnStmt" and n["c"] and f.node_pos(i) is not None and fin.eval_expr(f, n["c"][0], {}) == 0]
+        if not rets:
+            chk.ok(rid, f, "poll() never reports failure", where, "no `return false`", nontrivial=False)
+            continue
+        for r in rets:
+            atoms = [a for a in fin.dominating_atoms(f, f.node_pos(r)) if a[0] != "case"]
+            excl = False
+            for a in atoms:
+                k_ = fin.key(f, a[0])
+                if "__errno_location" in k_ or "errno" in k_:
+                    v4 = fin.eval_expr(f, a[0], {"*__errno_location()": 4})
+                    if v4 is not None and bool(v4) != bool(a[1]):
+                        excl = True
+            if excl:
+                chk.ok(rid, f, "failure reported only for errors other than EINTR", f.where(r), "dominating errno test", evals=len(atoms) + 1)
+            else:
+                chk.bad(rid, f, "poll-fails-on-interrupted-wait", f.where(r),
+                        "`return false` is reached without a test that excludes errno == EINTR: a signal delivered to the loop thread makes "
+                        "the wait return -1, poll() reports failure and Server::run() returns although nobody called interrupt() - timers and "
+                        "sockets stop being served", evals=len(atoms) + 1)
